@@ -436,7 +436,7 @@ func init() {
 	})
 
 	register(&Rule{
-		ID: "C10.R4", Props: []string{"C10", "C09", "C17"}, Min: 2,
+		ID: "C10.R4", Props: []string{"C10", "C09", "C17", "C02", "C04", "C05", "C12", "C16"}, Min: 2,
 		Doc: "pooled objects are clean when they go back: every sync.Pool.Put(x) is dominated by a reset of x (delete-all loop or clear() for maps, Reset() for builders, field clearing) and x does not escape (returned / stored) after the Put",
 		Run: func(p *Prog, c *Ctx) {
 			for _, fn := range p.Funcs {
